@@ -148,6 +148,7 @@ func (e *Enc) kvName(h *storeHandle) string {
 
 func init() {
 	C := "(" + sdkT + ".Context)."
+	extRules[C+"BlockHeader"] = func(cc *callCtx) ([]string, bool) { return []string{"0"}, true }
 	extRules[C+"KVStore"] = func(cc *callCtx) ([]string, bool) {
 		mod, ok := cc.e.storeModuleOf(cc.args[1])
 		if !ok {
